@@ -309,7 +309,7 @@ func checksSort() {
 				longInputs(sdom, 100, func(in []string) { sliceOne(t, c, in) })
 			}
 		})
-	rk := min(k, 5)
+	rk := min(k-2, 5)
 	check("sort.Slice / sort.SliceStable, EVERY comparator that is a relation on the values: all 512 binary relations on three values; whenever the #sort-comparator obligations hold on the input the result is an ordered permutation",
 		[]contract{intr}, fmt.Sprintf(`all 512 relations R on {"a" "b" "c"} as comparator R(x[i], x[j]), all slices over the three values up to length %d (cases: the pairs that pass the obligations)`, rk), func(t *T) {
 			vals := []string{"a", "b", "c"}
